@@ -21,24 +21,49 @@ from ..lean import Driver
 from . import c01, c02
 
 
-def with_registries(case, refschema, rs, ss, own):
-    """validator for the referenced form; `own`: registries bound to the validator instead of the global ones"""
+def with_registries(case, refschema, rs, ss, own, how=('add', 'kw')):
+    """validator for the referenced form; `own`: registries bound to the validator instead of the global ones.
+    how = (fill, bind): the registries are filled by add() / extend() / their constructor, and bound to the
+    validator by keyword argument or by attribute assignment"""
     real.clear_global_state()
     cfg = copy.deepcopy(case.get('refcfg', case.get('cfg', {})))
+    fill, bind = how
     if own:
-        rr, sr = RulesSetRegistry(), SchemaRegistry()
+        if fill == 'ctor':
+            rr, sr = RulesSetRegistry(copy.deepcopy(rs)), SchemaRegistry(copy.deepcopy(ss))
+        else:
+            rr, sr = RulesSetRegistry(), SchemaRegistry()
+    else:
+        rr, sr = rules_set_registry, schema_registry
+    if fill == 'extend' or (fill == 'ctor' and not own):
+        rr.extend(copy.deepcopy(rs))
+        sr.extend(copy.deepcopy(ss))
+    elif fill == 'add':
         for k, v in rs.items():
             rr.add(k, copy.deepcopy(v))
         for k, v in ss.items():
             sr.add(k, copy.deepcopy(v))
+    if own and bind == 'kw':
         cfg['rules_set_registry'] = rr
         cfg['schema_registry'] = sr
-    else:
-        for k, v in rs.items():
-            rules_set_registry.add(k, copy.deepcopy(v))
-        for k, v in ss.items():
-            schema_registry.add(k, copy.deepcopy(v))
+    if own and bind == 'attr':
+        # the registries are assigned before the schema (and an allow_unknown given by name) can be checked
+        au = cfg.pop('allow_unknown', None)
+        v = real.cls_of(case)(**cfg)
+        if rng_order(refschema):
+            v.rules_set_registry, v.schema_registry = rr, sr
+        else:
+            v.schema_registry = sr
+            v.rules_set_registry = rr
+        if au is not None:
+            v.allow_unknown = au
+        v.schema = copy.deepcopy(refschema)
+        return v
     return real.cls_of(case)(copy.deepcopy(refschema), **cfg)
+
+
+def rng_order(x):
+    return len(repr(x)) % 2 == 0
 
 
 def outcome(v, case, normalize):
@@ -68,9 +93,12 @@ def one(ctx, drv, i, prof, case):
                  refcfg=codec.enc_val(case['refcfg']) if 'refcfg' in case else None)
     real.clear_global_state()
     inline = {n: outcome(real.make_validator(case), case, n) for n in (False, True)}
+    how = (rng.choice(['add', 'add', 'extend', 'ctor']), rng.choice(['kw', 'kw', 'attr']))
+    jcase = dict(jcase, registries_filled_by=how[0], registries_bound_by=how[1])
+    ctx.dist('registries_filled_and_bound', '%s/%s' % how)
     for own in (False, True):
         try:
-            v = with_registries(case, refschema, rs, ss, own)
+            v = with_registries(case, refschema, rs, ss, own, how)
         except SchemaError as e:
             ctx.fail('C14 oracle: the schema with %s-registry references is rejected, the inline schema is accepted'
                      % ('validator' if own else 'module'), dict(jcase, own=own), detail=str(e)[:300])
@@ -81,7 +109,7 @@ def one(ctx, drv, i, prof, case):
             real.clear_global_state()
             return
         for n in (False, True):
-            got = outcome(with_registries(case, refschema, rs, ss, own), case, n)
+            got = outcome(with_registries(case, refschema, rs, ss, own, how), case, n)
             if got != inline[n]:
                 ctx.fail('C14 oracle: verdict / errors / normalized document differ between inline and referenced schema '
                          '(%s registries, normalize=%s)' % ('validator-bound' if own else 'module-level', n),
@@ -145,8 +173,21 @@ def recursive(ctx, drv):
     schema_registry.add('pong', {'w': {'type': 'string'}, 'next': {'type': 'dict', 'schema': 'ping'},
                                  'other': {'type': 'dict', 'schema': 'ping'}})
     rules_set_registry.add('pair', {'type': 'dict', 'keysrules': {'type': 'string'}, 'valuesrules': 'pair', 'allow_unknown': 'pair'})
+    # rules sets that refer to themselves from within a `schema` mapping (directly, through a list, through an *of rule)
+    rules_set_registry.add('selfmap', {'type': 'dict', 'schema': {'x': 'selfmap', 'n': {'type': 'integer'}}})
+    rules_set_registry.add('selflist', {'type': 'list', 'schema': {'type': 'dict', 'schema': {'y': 'selflist'}}})
+    rules_set_registry.add('selfof', {'anyof': [{'type': 'integer'}, {'type': 'dict', 'schema': {'y': 'selfof'}}]})
+    rules_set_registry.add('selfdeep', {'type': 'dict', 'schema': {'x': {'type': 'dict', 'schema': {'y': 'selfdeep'}}}})
     try:
-        more = [('node', 'node', {'v': 1, 'left': {'v': 2, 'left': {'v': 3}, 'right': {'v': 'x'}}, 'right': {'v': 4}}, False),
+        more = [('selfmap', {'a': 'selfmap'}, {'a': {'x': {'x': {'n': 1}, 'n': 2}}}, True),
+                ('selfmap', {'a': 'selfmap'}, {'a': {'x': {'x': {'n': 'bad'}}}}, False),
+                ('selfmap', {'a': {'type': 'dict', 'schema': {'b': 'selfmap'}}}, {'a': {'b': {'x': {'x': 3}}}}, False),
+                ('selflist', {'a': 'selflist'}, {'a': [{'y': []}, {'y': [{'y': []}]}]}, True),
+                ('selflist', {'a': 'selflist'}, {'a': [{'y': []}, {'y': 1}]}, False),
+                ('selfof', {'a': 'selfof'}, {'a': {'y': {'y': 1}}}, True),
+                ('selfof', {'a': 'selfof'}, {'a': {'y': {'y': 's'}}}, False),
+                ('selfdeep', {'a': 'selfdeep', 'b': 'selfmap'}, {'a': {'x': {'y': {'x': {}}}}, 'b': {'n': 1}}, True),
+                ('node', 'node', {'v': 1, 'left': {'v': 2, 'left': {'v': 3}, 'right': {'v': 'x'}}, 'right': {'v': 4}}, False),
                 ('node', {'a': {'type': 'dict', 'schema': 'node'}, 'b': {'type': 'dict', 'schema': 'node'}},
                  {'a': {'v': 1, 'right': {'v': 2}}, 'b': {'v': 3}}, True),
                 ('ping', 'ping', {'v': 1, 'next': {'w': 'a', 'next': {'v': 2}, 'other': {'v': 3, 'next': {'w': 4}}}}, False),
